@@ -125,6 +125,10 @@ def cases(tier, seed):
     for kind in ('arr:u2', 'arr:f8', 'fcs:16', 'fcs:F', 'rfi:lin', 'sub:slice'):
         for k in (1, 2, 3, 4, 5):
             yield dict(kind='wide', container=kind, k=k, tier=tier)
+    # many events in narrow types (a hand-written selection or accumulation shows only beyond a handful of events): even and odd counts
+    for kind in ('arr:u1', 'fcs:8', 'arr:u2', 'arr:f4', 'fcs:16'):
+        for n in (10, 11, 64, 500, 501):
+            yield dict(kind='many', container=kind, n=n)
     # floating-point containers with events that have no value (NaN) in some channel
     for kind in ('arr:f4', 'arr:f8', 'fcs:F', 'fcs:D'):
         for nanat in ([[1, 1]], [[0, 0], [4, 0]], [[2, 2], [3, 1]], [[0, 0], [1, 1], [2, 2]]):
@@ -175,6 +179,7 @@ def run_wide(c):
                       tuple(nm[j] if (i + j) % 2 == 0 else j for i, j in enumerate(sel))]
             if len(sel) == 1:
                 forms += [nm[sel[0]], sel[0]]            # a single channel asked for as a scalar
+            forms += [np.array([nm[j] for j in sel])]            # a NumPy array of names (np.array(d.channels)[...])
             # one-shot iterables (what filter(), map(), reversed() and generator expressions give): the sample's channel lookup accepts them
             forms += [OneShot('generator of names', lambda sel=sel: (nm[j] for j in sel)), OneShot('iter of positions', lambda sel=sel: iter(list(sel))),
                       OneShot('map to names', lambda sel=sel: map(lambda j: nm[j], sel))]
@@ -195,7 +200,7 @@ def run_wide(c):
                 if repr(form) != fr and not isinstance(form, OneShot):
                     res.violation('wide:%s:%s:channel-argument-changed' % (st, kind), 'stats.%s(%s, channels=%s) changed the caller\'s channel list to %r' % (st, kind, fr, form), one)
                     continue
-                if not isinstance(form, (list, tuple, OneShot)):
+                if not isinstance(form, (list, tuple, OneShot, np.ndarray)):
                     if v.shape != ():
                         res.violation('wide:%s:%s:shape' % (st, kind), 'stats.%s(%s with 5 channels, channels=%s) returned shape %s for a single channel' % (st, kind, fr, v.shape), one)
                         continue
@@ -357,6 +362,53 @@ def make_container(kind, M, alpha, names=None):
     raise ValueError(kind)
 
 
+def run_many(c):
+    """n events of three channels in a narrow container, from a fixed multiplicative generator (several streams): all statistics by definition"""
+    import FlowCal
+    res = Result()
+    kind, n = c['container'], c['n']
+    top = 256 if kind in ('arr:u1', 'fcs:8') else 1000
+    for stream in range(6):
+        x = 12345 + 7919 * stream + n
+        M = []
+        for i in range(n):
+            row = []
+            for j in range(3):
+                x = (x * 1103515245 + 12345) % (2 ** 31)
+                row.append(1 + (x >> 8) % (top - 1))
+            M.append(row)
+        mc = make_container(kind, M, 'pos')
+        if mc is None:
+            continue
+        obj, sp, vals = mc
+        tol = 2e-5 if sp else 1e-9           # (sums over hundreds of single-precision events: rounding accumulates beyond 1e-6)
+        cols = [tuple(r[j] for r in M) for j in range(3)]
+        for form, sel in ((None, [0, 1, 2]), ([2, 0], [2, 0]), (1, [1])):
+            for st in STATS:
+                one = dict(c)
+                exp = [ref(cols[j])[st] for j in sel]
+                try:
+                    with warnings.catch_warnings():
+                        warnings.simplefilter('ignore')
+                        v = np.asarray(getattr(FlowCal.stats, st)(obj, form), dtype=float).reshape(-1)
+                except Exception as e:
+                    res.violation('many:%s:raises:%s' % (st, type(e).__name__), 'stats.%s(%s with %d events, channels=%r) raised %s: %s' % (st, kind, n, form, type(e).__name__, e), one)
+                    continue
+                bad = None
+                for i, (gv, e) in enumerate(zip(v.tolist(), exp)):
+                    if e is None:
+                        continue
+                    if (st == 'mode' and not any(float(gv) == float(m_) for m_ in e)) or (st != 'mode' and not close(gv, e, tol)):
+                        bad = (i, gv, e)
+                        break
+                if bad:
+                    res.violation('many:%s:value' % st, 'stats.%s(%s with %d events (stream %d), channels=%r): entry %d is %r, the definition gives %r' % (st, kind, n, stream, form, bad[0], bad[1], bad[2]), one)
+                else:
+                    res.ok('many:%s' % st, True)
+    res.sample({'container': kind, 'events': n, 'streams': 6})
+    return res
+
+
 def run_nan(c):
     """floating-point containers in which some events have no value (NaN) in some channel: the arithmetic statistics of such a channel are
     NaN by their definitions (a sum with a NaN term), consistently across mean, SD and CV; channels without NaN follow their definitions"""
@@ -412,6 +464,8 @@ def run_case(c):
         return run_wide(c)
     if c.get('kind') == 'nan':
         return run_nan(c)
+    if c.get('kind') == 'many':
+        return run_many(c)
     res = Result()
     N, D, alpha = c['N'], c['D'], c['alpha']
     single = 'single' in c
